@@ -1,6 +1,7 @@
 import ShroudVerif.Lemmas.DeclRound
 import ShroudVerif.Lemmas.DeclMeaning
 import ShroudVerif.Lemmas.ArgMeaning
+import ShroudVerif.Lemmas.RewriteRound
 import ShroudVerif.Gen.DeclTables
 /-!
 # C09  Declarations are understood as a C++ compiler understands them
@@ -356,5 +357,95 @@ example : genDecl exFun = "static size_t ( * f)(const char * name +intent(in), i
 /-- the volatile qualifier survives the renderings (it was dropped before the fix) -/
 example : genDecl (.mk (.mk [sp "int"] [] false true [] (sp "int")) (some (.leaf [] (some (sp "x")))) none false [] [] none)
     = "volatile int x".toList := by decide
+
+/-! ### AST-rewriting operations (`Model/Rewrite.lean`)
+
+The generate phase rewrites parsed declarations (`set_return_to_void`, `_as_arg`,
+`result_as_arg`, `set_type` / `instantiate`).  After each rewrite the declaration must still be
+one that its own rendering denotes: the rendering parses back to the rewritten declaration. -/
+
+open Shroud.Gen.DeclTables in
+theorem defaultEnv_voidT : EnvVoidT defaultEnv := by rfl
+
+/-- **`set_return_to_void` leaves nothing of the old result type**, for every declaration:
+    specifier and typemap `void`, no cv, no template arguments, no pointers on the declarator. -/
+theorem setReturnToVoid_resets_type (d d' : Decl) (h : d.setReturnToVoid = .ok d') :
+    d'.spec.specifier = [sp "void"] ∧ d'.spec.typemap = sp "void" ∧ d'.spec.targs = [] ∧
+    d'.spec.const = false ∧ d'.spec.volatile = false ∧ d'.spec.storage = d.spec.storage ∧
+    d'.params = d.params ∧ (∃ dr, d.declarator = some dr ∧ d'.declarator = some dr.clearPointer) := by
+  obtain ⟨s, dr, params, fc, arr, attrs, init⟩ := d
+  cases dr with
+  | none => simp [Decl.setReturnToVoid] at h
+  | some dd =>
+    simp only [Decl.setReturnToVoid, Res.ok.injEq] at h
+    subst h
+    exact ⟨rfl, rfl, rfl, rfl, rfl, rfl, rfl, dd, rfl, rfl⟩
+
+/-- **Round trip after `set_return_to_void`**, whatever the result type was (templated
+    `std::vector<T>`, qualified names, cv, pointers: no condition on the old specifier part): the
+    rendering of the rewritten declaration parses back to the rewritten declaration. -/
+theorem setReturnToVoid_roundtrip (env : Env) (hv : EnvVoidT env) (d : Decl) (h : WFrest env d) :
+    ∃ d', d.setReturnToVoid = .ok d' ∧ parse env d'.toks = .ok d' := by
+  obtain ⟨d', h1, wf, _⟩ := setReturnToVoid_WF env hv d h
+  exact ⟨d', h1, roundtrip_partial env hv.envVoid d' wf⟩
+
+/-- **Round trip after `result_as_arg(name)`** for a well-formed function declaration and a
+    fresh argument name (`_partial`: the token-level domain `WF` has no template arguments; the
+    templated results are covered by `setReturnToVoid_roundtrip`, the tie `rewrite` and the
+    real-parser oracle). -/
+theorem resultAsArg_roundtrip_partial (env : Env) (hv : EnvVoidT env) (s : Spec) (ptrs : List Ptr) (fname : Str)
+    (ps : List Decl) (fc : Bool) (arr : List Expr) (attrs : List (Str × AttrVal)) (init : Option Init) (name : Str)
+    (wf : WF env (.mk s (some (.leaf ptrs (some fname))) (some ps) fc arr attrs init))
+    (hid : classify name = .ID) (hunq : env.unq name = none) (hfresh : ∀ p ∈ ps, p.shallowName ≠ some name) :
+    ∃ d', Decl.resultAsArg name (.mk s (some (.leaf ptrs (some fname))) (some ps) fc arr attrs init) = .ok d' ∧
+      parse env d'.toks = .ok d' := by
+  obtain ⟨d', h1, wf'⟩ := resultAsArg_WF env hv s ptrs fname ps fc arr attrs init name wf hid hunq hfresh
+  exact ⟨d', h1, roundtrip_partial env hv.envVoid d' wf'⟩
+
+/-- the argument made by `_as_arg` has the type of the result (template arguments included),
+    the given name, at least one level of indirection and no parameter list -/
+theorem asArg_keeps_type (name : Str) (d a : Decl) (h : d.asArg name = .ok a) :
+    a.spec = d.spec ∧ a.params = none ∧ a.shallowName = some name ∧ a.attrs = d.attrs ∧
+    (∃ ps, a.declarator = some (.leaf ps (some name)) ∧ ps ≠ []) := by
+  obtain ⟨s, dr, params, fc, arr, attrs, init⟩ := d
+  cases dr with
+  | none => simp [Decl.asArg] at h
+  | some dd =>
+    cases dd with
+    | wrap ps i => simp [Decl.asArg] at h
+    | leaf ps n =>
+      simp only [Decl.asArg, Res.ok.injEq] at h
+      subst h
+      refine ⟨rfl, rfl, rfl, rfl, _, rfl, ?_⟩
+      cases ps <;> simp
+
+/-- `set_type` / `instantiate` change the specifier words and the typemap only -/
+theorem setType_keeps_rest (env : Env) (tm : Str) (d d' : Decl) (h : d.setType env tm = .ok d') :
+    d'.declarator = d.declarator ∧ d'.params = d.params ∧ d'.spec.targs = d.spec.targs ∧
+    d'.spec.const = d.spec.const ∧ d'.spec.volatile = d.spec.volatile ∧ d'.spec.storage = d.spec.storage ∧
+    d'.array = d.array ∧ d'.attrs = d.attrs ∧
+    (∃ ti t, env.typeInfo tm = some ti ∧ ti.cxxType = some t ∧ d'.spec.typemap = ti.name ∧ d'.spec.specifier = splitWs [] t) := by
+  obtain ⟨s, dr, params, fc, arr, attrs, init⟩ := d
+  simp only [Decl.setType] at h
+  split at h
+  · cases h
+  · rename_i ti hti
+    split at h
+    · cases h
+    · rename_i t ht
+      simp only [Res.ok.injEq] at h
+      subst h
+      exact ⟨rfl, rfl, rfl, rfl, rfl, rfl, rfl, rfl, ti, t, hti, ht, rfl, rfl⟩
+
+/-- `std::vector<int> getValues(int n)` after `result_as_arg("out")` is
+    `void getValues(int n, std::vector<int> * out)` -/
+example :
+    let vecInt : Spec := .mk [sp "std::vector"] [] false false [.mk [sp "int"] [] false false [] (sp "int")] (sp "std::vector")
+    let n : Decl := .mk (.mk [sp "int"] [] false false [] (sp "int")) (some (.leaf [] (some (sp "n")))) none false [] [] none
+    Decl.resultAsArg (sp "out") (.mk vecInt (some (.leaf [] (some (sp "getValues")))) (some [n]) false [] [] none)
+      = .ok (.mk (.mk [sp "void"] [] false false [] (sp "void")) (some (.leaf [] (some (sp "getValues"))))
+          (some [n, .mk vecInt (some (.leaf [⟨.star, false, false⟩] (some (sp "out")))) none false [] [] none])
+          false [] [] none) := by rfl
+
 
 end Shroud.Decl
